@@ -175,6 +175,26 @@ def run_one(ctx, t, dt, pack, sysname, reg, base_units, alts):
         check_same_class(ctx, t, dt, sysname, tb, slotdim, dict(case0, chg="baseline"))
     inpl = t.flags.get("inplace", ())
     tgt_b = {n: core.tree(kb[n]) for n in inpl} if stb == "ok" else {}
+    # third oracle: an out= buffer handed over in ANOTHER unit of the same dimension must come back denoting the
+    # same quantities as with a buffer in the inputs' unit (handlers relabel or convert, never keep a stale label)
+    if exact_sys and stb == "ok" and "out" in inpl and t.inputs["out"][0] is not None and not noncov:
+        slot = t.inputs["out"][0]
+        alt_unit = SLOT_LETTER[slot] + "q"
+        ctx.count("evaluations")
+        ko = R.mk_unyt(t, data, base_units, registry=reg)
+        o = ko["out"]
+        ko["out"] = unyt_array(np.array(np.asarray(o), copy=True), alt_unit, registry=reg)
+        sto, to, _ = R.execute(t, ko)
+        case = dict(case0, chg=f"out-buffer:{alt_unit}")
+        if sto == "ok":
+            ctx.decided((t.func, t.tid, dt, pack, sysname, "out-buffer"))
+            for path, mode in compare(tgt_b["out"], core.tree(ko["out"]), exact):
+                ctx.violation(key(t, dt, sysname, "out-buffer-in-other-unit-" + mode, "|target=out"), case, short(tgt_b["out"]), short(core.tree(ko["out"])))
+            for path, mode in compare(tb, to, exact):
+                lf = "|leaf=" + ".".join(map(str, path)) if path else ""
+                ctx.violation(key(t, dt, sysname, "out-buffer-in-other-unit-result-" + mode, lf), case, short(_at(tb, path)), short(_at(to, path)))
+        else:
+            ctx.count("out_buffer_other_unit_refused")
     for label, units, factors in alts:
         ctx.count("evaluations")
         case = dict(case0, chg=label)
